@@ -527,6 +527,15 @@ where
         data: Datagrams,
     ) -> Result<(), ForwardPacketError> {
         self.metrics.send_packets_recv.inc();
+        // The decoder accepts datagrams that the destination's `RelayedStream` refuses to
+        // write: empty ones, and ones that exceed `MAX_PACKET_SIZE` once re-framed with the
+        // sender's id. A refused write terminates the *receiving* connection, so a client
+        // could get another client disconnected. Drop such datagrams here instead.
+        if !data.is_forwardable() {
+            debug!(dst = %dst.fmt_short(), "datagrams cannot be forwarded, dropped packet");
+            self.metrics.send_packets_dropped.inc();
+            return Ok(());
+        }
         self.clients
             .send_packet(dst, data, self.guard.endpoint_id(), &self.metrics)?;
 
